@@ -823,6 +823,7 @@ def run(ctx: Ctx):
 
 _F = "urwid/widget/monitored_list.py"
 MUTANTS = [
+    Mut("twin-sort-relocates-in-except-and-after", "urwid/widget/monitored_list.py", "MonitoredFocusList.sort", "        try:\n            rval = super().sort(**kwargs)\n        finally:\n            # the focus follows the object itself, not the first item that compares equal to it - also when a\n            # comparison raised after items had been moved\n            self.focus = next(i for i, item in enumerate(self) if item is value)\n", "        try:\n            rval = super().sort(**kwargs)\n        except BaseException:\n            self.focus = next(i for i, item in enumerate(self) if item is value)\n            raise\n        self.focus = next(i for i, item in enumerate(self) if item is value)\n", twin=True),
     Mut("sort-failure-leaves-focus", "urwid/widget/monitored_list.py", "MonitoredFocusList.sort", "        try:\n            rval = super().sort(**kwargs)\n        finally:\n            # the focus follows the object itself, not the first item that compares equal to it - also when a\n            # comparison raised after items had been moved\n            self.focus = next(i for i, item in enumerate(self) if item is value)\n", "        rval = super().sort(**kwargs)\n        self.focus = next(i for i, item in enumerate(self) if item is value)\n", "PASS|widget.monitored_list.MonitoredFocusList.sort|sort: focus not re-located when the list call raises"),
     Mut("base-extend-consumes-lazily", "urwid/widget/monitored_list.py", "MonitoredList.extend", "super().extend(list(__iterable))", "super().extend(__iterable)", "KIND|widget.monitored_list.MonitoredList.extend|MonitoredList.extend: iterable not materialised before the list call"),
     Mut("twin-base-extend-tuple", "urwid/widget/monitored_list.py", "MonitoredList.extend", "super().extend(list(__iterable))", "super().extend(tuple(__iterable))", twin=True),
